@@ -40,6 +40,23 @@ def rawtype_jobs(prop, T, names=None, **kw):
                        bounds='type %s (%d bits, divisor %d%s): every byte pattern of the field and its neighbours, every field offset 0..2' % (tid, bits, div, ', first bit %d' % fb if fb >= 0 else ''), **kw))
     return out
 
+# date/time types: (id, bits, flags, repl, hasDate, hasTime); flags BCD=2 REV=4 SPE=0x1000
+DATETYPES = [('BDA', 32, 2, 0xff, 1, 0), ('BDA3', 24, 2, 0xff, 1, 0), ('BDZ', 32, 0x1002, 0xff, 1, 0), ('HDA', 32, 0, 0xff, 1, 0), ('HDA3', 24, 0, 0xff, 1, 0),
+             ('BTI', 24, 6, 0xff, 0, 1), ('HTI', 24, 0, 0xff, 0, 1), ('VTI', 24, 4, 0x63, 0, 1), ('BTM', 16, 6, 0xff, 0, 1), ('HTM', 16, 0, 0xff, 0, 1), ('VTM', 16, 4, 0xff, 0, 1)]
+QUICK_DATE = ['BDA', 'HDA3', 'BTI', 'HTM', 'VTM']
+
+def datetype_jobs(prop, T, **kw):
+    out = []
+    for (tid, bits, fl, repl, hd, ht) in DATETYPES:
+        if not T and tid not in QUICK_DATE:
+            continue
+        d = {'D_BITS': bits, 'D_FLAGS': fl, 'D_REPL': '%du' % repl, 'D_DATE': hd, 'D_TIME': ht}
+        out.append(Job(prop, 'date_' + tid, 'C05_date.cpp', defs=d, unwind=14, shape='K',
+                       link=['lib/ebus/datatype.cpp', 'lib/ebus/symbol.cpp', 'lib/ebus/result.cpp', 'lib/ebus/contrib/contrib.cpp', 'lib/ebus/contrib/tem.cpp'],
+                       models=['string', 'libc', 'sstream', 'posix', 'containers', 'libm'], skip_ctors=['datatype', 'contrib', 'tem'],
+                       bounds='type %s: every byte pattern without replacement bytes (dates: day/month non-zero), text output format' % tid, **kw))
+    return out
+
 QUICK_NUM = ['UCH', 'SCH', 'D1C', 'UIN', 'SIN', 'FLT', 'S3N', 'ULG', 'SLG', 'U4L', 'SIN-10']
 
 def numtype_jobs(prop, src, T, extra_defs, prefix, names=None, **kw):
@@ -100,7 +117,16 @@ def jobs(prop, tier):
         names = None
         if prop == 'C10':
             names = ['BI0_1', 'BI0_7', 'BI3_2', 'BI3_5', 'BI7', 'UCH', 'SIR', 'BCD2']
-        J += rawtype_jobs(prop, T, names=names, solver='cadical', timeout=1500 if T else 280)
+        J += rawtype_jobs(prop, T, names=names, solver=PORTFOLIO, timeout=1500 if T else 280)
+        if prop == 'C05':
+            J += datetype_jobs(prop, T, solver=PORTFOLIO, timeout=1500 if T else 280)
+            ranges = [(0, 4095), (36000, 40095)] if not T else [(k * 4096, k * 4096 + 4095) for k in range(16)]
+            for (lo, hi) in ranges:
+                J.append(Job('C05', 'day_%d' % lo, 'C05_day.cpp', defs={'RANGE_LO': lo, 'RANGE_HI': hi}, unwind=14, shape='K',
+                             link=['lib/ebus/datatype.cpp', 'lib/ebus/symbol.cpp', 'lib/ebus/result.cpp', 'lib/ebus/contrib/contrib.cpp', 'lib/ebus/contrib/tem.cpp'],
+                             models=['string', 'libc', 'sstream', 'posix', 'containers', 'libm'], skip_ctors=['datatype', 'contrib', 'tem'],
+                             solver=PORTFOLIO, timeout=1500 if T else 280,
+                             bounds='DAY type: every day count in %d..%d against the civil calendar' % (lo, hi)))
     if prop == 'C14':
         DEV = dict(link=['lib/ebus/device_trans.cpp', 'lib/ebus/symbol.cpp', 'lib/ebus/result.cpp'],
                    models=['string', 'libc', 'sstream_null', 'posix', 'containers', 'libm'], solver=PORTFOLIO,
